@@ -9,7 +9,7 @@
 //         spec = the two booleans and the points when true)
 //   lines <pairs> <ox> <oy> <oz> <sh> <box> <d|f>     per-case text of one box
 //   case <d|f> <12 numbers: box min, box max, pos, dir>   numbers: strtod syntax or x<16 hex digits>
-//   sweep <d|f> <seed> <nboxes>                        float guard sweep blocks (input of `drv_raybox sweep`)
+//   sweep <d|f> <seed> <quick|thorough>                float guard sweep blocks (input of `drv_raybox sweep`)
 //
 // On the lattice directions are integers in [-2,2] and box/origin coordinates are
 // (integer + offset) * 2^sh, so every quotient, product and sum the code forms is
@@ -246,17 +246,45 @@ template <class T> static std::vector<T> posList (T lo, T hi)
     return r;
 }
 
-template <class T> static void sweep (uint64_t seed, int nboxes)
+template <class T> struct SweepBox
+{
+    std::string    name;
+    Box<Vec3<T>>   b;
+    std::vector<T> P[3]; // explicit origin coordinate lists (empty: derived from the box by posList)
+};
+
+// Blocks: first the DETERMINISTIC ones (independent of the seed: the canonical witness of
+// every flip class is the first flip of that class in block order, hence reproducible),
+// then the seeded ones.
+template <class T> static void sweep (uint64_t seed, bool thorough)
 {
     const T M  = std::numeric_limits<T>::max ();
     const T dn = std::numeric_limits<T>::denorm_min ();
     Rng     g{seed * 0x9E3779B97F4A7C15ull + 12345};
     for (int i = 0; i < 4; ++i) g.next ();
     std::vector<T> D = {T (0), dn, -dn, T (1e-30), T (-1e-30), T (1), T (-1), T (1e30), T (-1e30), M / 2, -M / 2};
-    struct NB { const char* name; Box<Vec3<T>> b; };
-    std::vector<NB> boxes;
+    std::vector<SweepBox<T>> boxes;
+    auto add = [&] (const char* name, const Box<Vec3<T>>& b) { SweepBox<T> sb; sb.name = name; sb.b = b; boxes.push_back (sb); };
+    // --- deterministic
+    add ("fixed-ordinary", Box<Vec3<T>> (Vec3<T> (T (-1.5), 0, -4), Vec3<T> (T (-0.5), 2, 0)));
+    add ("fixed-halfinfinite", Box<Vec3<T>> (Vec3<T> (2, -1, -1), Vec3<T> (M, 1, 1)));
     {
-        // 1. ordinary box, seeded centre / half-widths
+        // face - pos overflows: box far out on +x, origins far out on -x
+        SweepBox<T> sb;
+        sb.name = "fixed-overflow";
+        sb.b    = Box<Vec3<T>> (Vec3<T> (M / 2, -1, -1), Vec3<T> (M, 1, 1));
+        sb.P[0] = {-M, -M / 2, T (0)};
+        sb.P[1] = {T (-3), T (0)};
+        sb.P[2] = {T (0)};
+        boxes.push_back (sb);
+    }
+    add ("fixed-offcentre", Box<Vec3<T>> (Vec3<T> (1, 5, -1), Vec3<T> (2, 6, 1)));
+    {
+        Box<Vec3<T>> b; b.makeInfinite ();
+        add ("fixed-infinite", b);
+    }
+    // --- seeded
+    {
         T hw[3] = {T (0.5), T (1), T (2)};
         Box<Vec3<T>> b;
         for (int a = 0; a < 3; ++a)
@@ -264,46 +292,30 @@ template <class T> static void sweep (uint64_t seed, int nboxes)
             T c = (T) g.range (-2, 2), w = hw[g.range (0, 2)];
             b.min[a] = c - w; b.max[a] = c + w;
         }
-        boxes.push_back ({"ordinary", b});
+        add ("seeded-ordinary", b);
     }
     {
-        // 2. off-centre box scaled by a seeded power of two
-        T k = (T) std::ldexp (1.0, g.range (-2, 2));
-        Box<Vec3<T>> b (Vec3<T> (1 * k, 5 * k, -1 * k), Vec3<T> (2 * k, 6 * k, 1 * k));
-        boxes.push_back ({"offcentre", b});
-    }
-    {
-        // 3. one side at numeric_limits::max (half-infinite box)
         T a = (T) g.range (-1, 2);
-        Box<Vec3<T>> b (Vec3<T> (a, -1, -1), Vec3<T> (M, 1, 1));
-        boxes.push_back ({"halfinfinite", b});
+        add ("seeded-halfinfinite", Box<Vec3<T>> (Vec3<T> (a, -1, -1), Vec3<T> (M, 1, 1)));
     }
+    if (thorough)
     {
-        // 4. Box::makeInfinite
-        Box<Vec3<T>> b; b.makeInfinite ();
-        boxes.push_back ({"infinite", b});
-    }
-    {
-        // 5. flat box
+        T k = (T) std::ldexp (1.0, g.range (-2, 2));
+        add ("seeded-offcentre", Box<Vec3<T>> (Vec3<T> (1 * k, 5 * k, -1 * k), Vec3<T> (2 * k, 6 * k, 1 * k)));
         T a = (T) g.range (-2, 2);
-        Box<Vec3<T>> b (Vec3<T> (a, -1, -2), Vec3<T> (a, 1, 3));
-        boxes.push_back ({"flat", b});
+        add ("seeded-flat", Box<Vec3<T>> (Vec3<T> (a, -1, -2), Vec3<T> (a, 1, 3)));
+        add ("fixed-huge", Box<Vec3<T>> (Vec3<T> (T (-1e30), T (-1e30), -1), Vec3<T> (T (1e30), T (2e30), 1)));
     }
-    {
-        // 6. huge box
-        Box<Vec3<T>> b (Vec3<T> (T (-1e30), T (-1e30), -1), Vec3<T> (T (1e30), T (2e30), 1));
-        boxes.push_back ({"huge", b});
-    }
-    if (nboxes > (int) boxes.size ()) nboxes = (int) boxes.size ();
     const bool isF = sizeof (T) == 4;
-    for (int bi = 0; bi < nboxes; ++bi)
+    for (size_t bi = 0; bi < boxes.size (); ++bi)
     {
         const Box<Vec3<T>>& b = boxes[bi].b;
         std::vector<T>      P[3];
-        for (int a = 0; a < 3; ++a) P[a] = posList<T> (b.min[a], b.max[a]);
+        for (int a = 0; a < 3; ++a) P[a] = boxes[bi].P[a].empty () ? posList<T> (b.min[a], b.max[a]) : boxes[bi].P[a];
         printf ("T %s\n", bits ((double) M).c_str ());
+        printf ("prec %d\n", isF ? 24 : 53);
         printf ("eta %s\n", isF ? "1/10000" : "1/1000000000");
-        printf ("tag %s:%s\n", isF ? "float" : "double", boxes[bi].name);
+        printf ("tag %s:%s\n", isF ? "float" : "double", boxes[bi].name.c_str ());
         printf ("box %s %s %s %s %s %s\n", bits (b.min.x).c_str (), bits (b.min.y).c_str (), bits (b.min.z).c_str (),
                 bits (b.max.x).c_str (), bits (b.max.y).c_str (), bits (b.max.z).c_str ());
         const char* pn[3] = {"px", "py", "pz"};
@@ -378,8 +390,9 @@ int main (int argc, char** argv)
     }
     if (!strcmp (argv[1], "sweep") && argc >= 5)
     {
-        if (argv[2][0] == 'f') sweep<float> (strtoull (argv[3], 0, 10), atoi (argv[4]));
-        else sweep<double> (strtoull (argv[3], 0, 10), atoi (argv[4]));
+        bool th = !strcmp (argv[4], "thorough");
+        if (argv[2][0] == 'f') sweep<float> (strtoull (argv[3], 0, 10), th);
+        else sweep<double> (strtoull (argv[3], 0, 10), th);
         return 0;
     }
     fprintf (stderr, "usage: raybox_corr lattice|lines|case|sweep ...\n");
